@@ -196,6 +196,11 @@ def check_against_rfc(case, result):
         # the verdicts below would be relative to a configuration the protocol does not have
         return [(f"config/{role}/{k}", f"setProtocolOptions({k}={want_v!r}) ({case.get('config_style') or 'one call for all options'}): "
                                        f"after the handshake the protocol works with {k}={got_v!r}")]
+    if verdict[0] == "fail" and result.get("hooks_after_failure"):
+        hk = result["hooks_after_failure"]
+        probs.append((f"{role}/app-hooks-called-after-failure",
+                      f"after the connection was failed for a {verdict[1]} violation (close frame sent / transport dropped) the application's "
+                      f"receive hooks were still called: {[h[0] for h in hk][:8]}{' ...' if len(hk) > 8 else ''}, {sum(h[1] for h in hk)} payload octets handed over"))
     if any(e[0] == "escaped" for e in ev):
         return [(f"{role}/escaped/{[e[1] for e in ev if e[0] == 'escaped'][0]}", "an exception left dataReceived")]
     # the point where the implementation reacted to a close / violation: first close frame written or TCP drop
@@ -326,35 +331,49 @@ def env_for(fw):
 # What the application has seen when its onMessageEnd runs is reported through the observer's onMessage, so that
 # the event log has the same form under the three APIs.
 
+def _hook(self, name, n=0):
+    """every application hook call is recorded in the connection's log, in order with the octets written"""
+    lg = getattr(self, "_app_log", None)
+    if lg is not None:
+        lg.append(["hook", name, n])
+
+
 class FrameApi:
     def onMessageBegin(self, isBinary):
+        _hook(self, "onMessageBegin")
         super().onMessageBegin(isBinary)
         self._app_bin, self._app_parts = isBinary, []
 
     def onMessageFrame(self, payload):
+        _hook(self, "onMessageFrame", sum(len(d) for d in payload))
         for data in payload:
             self._app_parts.append(bytes(data))
 
     def onMessageEnd(self):
+        _hook(self, "onMessageEnd")
         self.onMessage(b"".join(self._app_parts), self._app_bin)
         self._app_parts = None
 
 
 class StreamingApi:
     def onMessageBegin(self, isBinary):
+        _hook(self, "onMessageBegin")
         super().onMessageBegin(isBinary)
         self._app_bin, self._app_parts = isBinary, []
 
     def onMessageFrameBegin(self, length):
+        _hook(self, "onMessageFrameBegin")
         super().onMessageFrameBegin(length)
 
     def onMessageFrameData(self, payload):
+        _hook(self, "onMessageFrameData", len(payload))
         self._app_parts.append(bytes(payload))
 
     def onMessageFrameEnd(self):
-        pass
+        _hook(self, "onMessageFrameEnd")
 
     def onMessageEnd(self):
+        _hook(self, "onMessageEnd")
         self.onMessage(b"".join(self._app_parts), self._app_bin)
         self._app_parts = None
 
@@ -384,7 +403,7 @@ def run_config(fw, case):
     conn.handshake()
     assert conn.state() == "OPEN", conn.state()
     vec = {}
-    for k in OPTION_VECTOR["common"] + OPTION_VECTOR[role]:
+    for k in case.get("config_vector") or (OPTION_VECTOR["common"] + OPTION_VECTOR[role]):
         v = getattr(conn.proto, k, "<missing>")
         vec[k] = v if isinstance(v, (bool, int, float, str)) or v is None else repr(v)
     conn.lost(clean=True)
@@ -428,6 +447,7 @@ def make_conn(fw, case):
             conn.factory.setProtocolOptions(**{k: opts[k]})
     else:
         conn = env.connect(role, options=opts, protocol_mixin=API_MIXINS[case.get("api")])
+    conn.proto._app_log = conn.log
     conn.handshake(extra_headers=extra)
     conn.config_mismatch = {k: [v, getattr(conn.proto, k, "<missing>")] for k, v in opts.items()
                             if isinstance(v, (bool, int)) and getattr(conn.proto, k, "<missing>") != v}
@@ -507,6 +527,14 @@ def run_sends(wsdrv, conn, ops):
             k = max(1, op.get("fragment") or len(payload) or 1)
             for i in range(0, max(1, len(payload)), k):
                 conn.call("sendMessageFrame", payload[i:i + k])
+            conn.call("endMessage")
+        elif api == "framedata":
+            # frame-wise sending, streamed frame payload: beginMessage / beginMessageFrame(n) / sendMessageFrameData ... / endMessage
+            conn.call("beginMessage", binary)
+            conn.call("beginMessageFrame", len(payload))
+            k = max(1, op.get("fragment") or len(payload) or 1)
+            for i in range(0, max(1, len(payload)), k):
+                conn.call("sendMessageFrameData", payload[i:i + k])
             conn.call("endMessage")
         else:
             raise ValueError(api)
@@ -590,6 +618,19 @@ def run_case(fw, case):
     if "send" in case:
         conn.call("sendMessage", b"x" * case["send"]["len"], bool(case["send"]["binary"]))
     ev = canon_log(conn.log[n0:], wsdrv)
+    # application hooks (frame-based / streaming receive API) called after WE ended the conversation: after the first
+    # close frame written or the transport dropped
+    hooks_after, ended = [], False
+    for e in conn.log[n0:]:
+        if e[0] in ("lose", "abort"):
+            ended = True
+        elif e[0] == "write" and not ended:
+            try:
+                ended = any(f["opcode"] == 8 for f in wsdrv.parse_frames(bytes.fromhex(e[1]))[0])
+            except ValueError:
+                pass
+        elif e[0] == "hook" and ended:
+            hooks_after.append([e[1], e[2]])
     sends = run_sends(wsdrv, conn, case["sends"]) if "sends" in case else None
     state = conn.state()
     close = None
@@ -608,6 +649,8 @@ def run_case(fw, case):
         res["sends"] = sends
     if conn.config_mismatch:
         res["config_mismatch"] = conn.config_mismatch
+    if hooks_after:
+        res["hooks_after_failure"] = hooks_after
     return res
 
 
